@@ -190,6 +190,30 @@ func (ch c11) Run(c *core.Ctx) {
 		conn.CloseWrite()
 		conn.WaitClosed()
 	}
+	// the same upgrade on connections of another address family (a unix-domain socket listener, where peers
+	// also share one address string): with certificates configured the answer is S there too
+	if c.Begin(934000) {
+		tr.UnixNet.Store(true)
+		tr.AnonAddrs.Store(true)
+		prog := &hs.Prog{Stmts: []*hs.Stmt{{ID: "t", Cols: textCols(1), Ops: []hs.Op{{K: "row", Vals: []any{"v"}}, {K: "complete", Tag: "SELECT 1"}}}}}
+		for _, ver := range []uint16{tls.VersionTLS12, tls.VersionTLS13} {
+			t, reply, err := c11upgrade(envTLS, &hs.Sess{Default: func(string) *hs.Prog { return prog }}, nil, false, ver)
+			c.Count("upgrades_on_unix_socket_connections", 1)
+			if err != nil {
+				c.Violate("ssl-reply", "SSLRequest on a unix-socket connection of a server with certificates not answered S / not upgraded", fmt.Sprintf("reply %q: %v", trim(reply, 40), err), nil)
+				break
+			}
+			if o, _ := t.step(append(pg.Startup([][2]string{{"user", "u"}}), pg.Query("t")...)); !strings.HasSuffix(pg.Types(mustMsgs(o)), "TDCZ") {
+				c.Violate("tls-differs", "session inside TLS on a unix-socket connection not served", replyKinds(o), nil)
+			}
+			t.tc.Close()
+			t.conn.CloseWrite()
+			t.conn.WaitClosed()
+		}
+		tr.UnixNet.Store(false)
+		tr.AnonAddrs.Store(false)
+		c.Eval("unix socket upgrade", true)
+	}
 	// start-up packets of every shape - protocol versions other than 3.0, odd parameter lists - followed by
 	// a query: the packet gets inside TLS, and in plaintext after a declined SSLRequest, what it gets as the
 	// first packet of a plaintext connection (replies, error codes, callbacks, whether the connection ends)
